@@ -45,23 +45,16 @@ func (ec *ErrorContainer) AddError(err error) {
 // AddErrorList takes a list of errors and adds them to the container.  Any errors
 // which are nil will be dropped.
 func (ec *ErrorContainer) AddErrorList(el []error) {
-	if ec.errors_ == nil {
-		ec.errors_ = el
+	if ec == nil {
 		return
 	}
+	// Always copy: the caller keeps ownership of el (which may even be another
+	// container's list), and nil entries are dropped whatever state we are in.
 	for i := range el {
 		if el[i] != nil {
-			continue
+			ec.errors_ = append(ec.errors_, el[i])
 		}
-		// drat, long way around
-		for j := range el {
-			if el[j] != nil {
-				ec.errors_ = append(ec.errors_, el[j])
-			}
-		}
-		return
 	}
-	ec.errors_ = append(ec.errors_, el...)
 }
 
 // Errors returns either a non-empty list of errors, or nil.
